@@ -108,7 +108,7 @@ theorem extra_keys_need_additional_properties (O : Oracles) (c : ClassOpts)
 /-- **C06, "exactly the images" (partial: the exact fragment)**: for every class of the fragment
     `exactDecl` — scalars with every constraint, enums, Array / Deque / Tuple (uniqueItems only over
     plain scalar items), Set of strings (mutable or immutable), Map from strings to anything of the
-    fragment, nested Structure classes, at any depth — every JSON document `d` and every flag setting, the
+    fragment, `Optional[X]` (either order of the options), nested Structure classes, at any depth — every JSON document `d` and every flag setting, the
     Deserializer succeeds with result `x` exactly when `d` is the documented JSON form of keyword
     arguments that the constructor accepts, and `x` is the instance the constructor builds from them -/
 theorem deserialize_exact_partial (O : Oracles) (opts : DeserOpts) (c : ClassOpts)
@@ -234,4 +234,30 @@ theorem exact_set_map_example :
           (.str "m", .dict [(.str "k", .list [])])])).isNone = true := by
   decide
 
+
+/-- `Optional[X]` inside the exact fragment: an optional scalar field and an array of optional strings
+    (null elements become None), in both orders of the options; a value neither None nor an `X` is
+    rejected by the model and by the specification -/
+def exOptCls : FieldDecl :=
+  .struct { name := "P", required := ["xs"], addl := false, accepts := ["P"] }
+    [("o", .anyOf [.noneF, .integer { min := some ⟨0, 1⟩ }]),
+     ("xs", .seqOf .list (.anyOf [.string none none none, .noneF]) {})] []
+
+theorem exact_optional_example :
+    exactDecl exOptCls = true
+    ∧ strictJson (.dict [(.str "o", .int 5), (.str "xs", .list [.str "a", .none])]) = true
+    ∧ (match deserialize exO {} exOptCls (.dict [(.str "o", .int 5), (.str "xs", .list [.str "a", .none])]) with
+      | .ok (.inst "P" [("o", .int 5), ("xs", .list [.str "a", .none])]) => true
+      | _ => false) = true
+    ∧ (match expectedDeser exO {} exOptCls (.dict [(.str "o", .int 5), (.str "xs", .list [.str "a", .none])]) with
+      | some (.inst "P" [("o", .int 5), ("xs", .list [.str "a", .none])]) => true | _ => false) = true
+    ∧ (match deserialize exO {} exOptCls (.dict [(.str "o", .none), (.str "xs", .list [])]) with
+      | .ok (.inst "P" [("xs", .list [])]) => true | _ => false) = true
+    ∧ (match deserialize exO {} exOptCls (.dict [(.str "o", .int (-1)), (.str "xs", .list [])]) with
+      | .error _ => true | _ => false) = true
+    ∧ (expectedDeser exO {} exOptCls (.dict [(.str "o", .int (-1)), (.str "xs", .list [])])).isNone = true
+    ∧ (expectedDeser exO {} exOptCls (.dict [(.str "xs", .list [.int 3])])).isNone = true := by
+  decide
+
 end Typedpy.C06
+
